@@ -101,7 +101,7 @@ func (e *e2) control(op *Op, ctx *OpCtx) (res Res) {
 		res.Val = uint64(len(e.w.Handles) - 1)
 		e.mu.Unlock()
 	case "Sleep":
-		time.Sleep(time.Duration(op.Dur) * time.Second)
+		e.s.Sleep(time.Duration(op.Dur) * time.Second)
 	case "Yield":
 	default:
 		panic("unknown control op " + op.Kind)
